@@ -159,6 +159,7 @@ def bits(a):
 
 def run_transform(case):
     """case: dm fields + 'tf' config (+ 'nan' cells).  -> dumps before/after as plain lists."""
+    I.set_salt(case.get("matrix"))
     try:
         if case.get("nan"):
             mtx = np.array(case["matrix"], dtype=float)
